@@ -34,8 +34,7 @@ static void ver_parse(const char *s, ver_t *v)
     for (;;) {
         char *e;
         if (!isdigit((unsigned char)*s) || v->nnum >= 8) return;
-        if (s[0] == '0' && isdigit((unsigned char)s[1])) return;         /* leading zeros: not generated, not modelled */
-        v->num[v->nnum++] = strtol(s, &e, 10);
+        v->num[v->nnum++] = strtol(s, &e, 10);                             /* numbers are decimal, zero-padded or not: 08 is eight */
         if (e - s > 6) return;
         s = e;
         if (*s == '.') { s++; continue; }
@@ -48,7 +47,6 @@ static void ver_parse(const char *s, ver_t *v)
         if (isalpha((unsigned char)*s)) return;
         if (isdigit((unsigned char)*s)) {
             char *e;
-            if (s[0] == '0' && isdigit((unsigned char)s[1])) return;
             v->wnum = strtol(s, &e, 10); v->has_wnum = 1;
             if (e - s > 6) return;
             s = e;
@@ -109,6 +107,9 @@ static void exec_c17(const plan_t *p)
         if (va.ok && vb.ok) {
             int want = ver_ref(&va, &vb);
             probe_hit("wellformed_pair");
+            { const char *z; int padded = 0; for (z = a; *z; z++) if (z[0] == '0' && isdigit((unsigned char)z[1]) && (z == a || !isdigit((unsigned char)z[-1]))) padded = 1;
+              for (z = b; *z; z++) if (z[0] == '0' && isdigit((unsigned char)z[1]) && (z == b || !isdigit((unsigned char)z[-1]))) padded = 1;
+              if (padded) probe_hit("zero_padded_component"); }
             if (va.has_word && vb.has_word && preword_rank(va.word) && preword_rank(vb.word)) probe_hit("prerelease_word_pair");
             if (va.has_word != vb.has_word && va.nnum == vb.nnum) probe_hit("suffix_vs_bare");
             if (want != 99 && want != r1) sim_fail("MISMATCH(order)", "compare(\"%.40s\",\"%.40s\") returned %d, the stated ordering rules give %d", a, b, r1, want);
@@ -124,10 +125,14 @@ static size_t gen_version(rng_t *r, char *out, size_t max)
     static const char *words[] = { "snap", "pre", "alpha", "beta", "rc", "a", "b", "p", "final", "Alpha", "PRE", "xyz" };
     size_t n = 0;
     int comps = rng_range(r, 1, 4);
-    for (int i = 0; i < comps; i++) n += (size_t)snprintf(out + n, max - n, "%s%u", i ? "." : "", rng_chance(r, 1, 3) ? rng_below(r, 3) : rng_below(r, 100));
+    int pad = rng_chance(r, 1, 5);                     /* zero-padded components (dates, 1.010 vs 1.9) */
+    for (int i = 0; i < comps; i++) {
+        unsigned v = rng_chance(r, 1, 3) ? rng_below(r, 3) : rng_chance(r, 1, 4) ? 7 + rng_below(r, 5) : rng_below(r, 100);
+        n += (size_t)snprintf(out + n, max - n, pad && rng_chance(r, 1, 2) ? (rng_chance(r, 1, 2) ? "%s%02u" : "%s%03u") : "%s%u", i ? "." : "", v);
+    }
     if (rng_chance(r, 1, 2)) {
         n += (size_t)snprintf(out + n, max - n, "%s", words[rng_below(r, 12)]);
-        if (rng_chance(r, 2, 3)) n += (size_t)snprintf(out + n, max - n, "%u", rng_below(r, 12));
+        if (rng_chance(r, 2, 3)) n += (size_t)snprintf(out + n, max - n, pad && rng_chance(r, 1, 3) ? "%02u" : "%u", rng_below(r, 12));
     }
     return n;
 }
